@@ -60,7 +60,7 @@ def tags_of(case):
             t.add("entry.no_directory")
         if any(not d["abs"] for d in e["incs"]):
             t.add("entry.relative_include_dir")
-        if e["cmd"] == "empty":
+        if e["cmd"] in ("empty", "blank"):
             t.add("entry.empty_command")
     for x in case["exp"]:
         t.add("entry." + x["why"])
@@ -89,6 +89,8 @@ def check_chunk(args):
                     ent["directory"] = spelled(base, e["dir"])
                 if e["cmd"] == "empty":
                     ent["arguments"] = []
+                elif e["cmd"] == "blank":
+                    ent["command"] = " \t "
                 else:
                     a = ["gcc"]
                     for d in e["incs"]:
@@ -160,7 +162,7 @@ def check_chunk(args):
             # gcc confirms the reference: run from the entry's directory
             if gcc_every and ci % gcc_every == 0:
                 for e, x in zip(case["ents"], case["exp"]):
-                    if e["cmd"] == "empty" or x["why"] == "notsource":
+                    if e["cmd"] in ("empty", "blank") or x["why"] == "notsource":
                         continue
                     cwd = root if e["dir"]["none"] else (spelled(base, e["dir"]) if e["dir"]["abs"] else os.path.join(root, spelled(base, e["dir"])))
                     a = ["gcc", "-E", "-P"]
